@@ -2,7 +2,7 @@
    implementation responses.  Mismatch tags: "S:" = an observable the property itself
    determines (status class, S3 code, body, ETag, listing contents) — a spec failure;
    "M:" = an ancillary observable only the model fixes (header presence etc.). *)
-From GF Require Import Base.Lit Base.Int64 Model.Mem Model.Handlers Model.Uploader Model.Chunk Extract.Checks.
+From GF Require Import Base.Lit Base.Int64 Model.Mem Model.Handlers Model.Uploader Model.Chunk Model.MemVersions Extract.Checks.
 Open Scope string_scope.
 Open Scope list_scope.
 Open Scope Z_scope.
@@ -26,6 +26,7 @@ Record obs := {
   ob_contents : list (list N * (Z * list N));   (* key, size, etag *)
   ob_truncated : bool;
   ob_next : list N;                (* NextMarker / decoded NextContinuationToken *)
+  ob_versions : list (list N * (bool * bool));   (* per listed version: id string, is delete marker, IsLatest *)
 }.
 
 Inductive hop :=
@@ -43,7 +44,8 @@ Inductive hop :=
 | HAbort (b k uid : list N)
 | HListParts (b k uid : list N) (marker limit : Z)
 | HListUploads (b pre : list N) (delim : option N) (key_marker id_marker : list N) (limit : Z)
-| HChunkedPut (b k stream : list N) (sched : list Z) (eofw : bool) (declared : Z) (payload : list N).
+| HChunkedPut (b k stream : list N) (sched : list Z) (eofw : bool) (declared : Z) (payload : list N)
+| HListVersions (b pre : list N) (delim : option N) (km vm : list N) (maxkeys : Z).
 
 Record hstate := { hs_model : state; hs_tbl : list (N * list N);
                    hs_up : ustate; hs_utbl : list (N * list N);
@@ -344,9 +346,55 @@ Definition chunked_put_step (md5 : list N -> list N) (c : config) (hs : hstate) 
   | _ => (hs, [])
   end.
 
+(* ListObjectVersions: entries compared in order; version ids through the bijection *)
+Fixpoint ventries_check (md5 : list N -> list N) (show : bool) (t : list (N * list N))
+    (es : list ventry) (cs : list (list N * (Z * list N))) (vs : list (list N * (bool * bool)))
+  : list (N * list N) * list (list N) :=
+  match es, cs, vs with
+  | [], [], [] => (t, [])
+  | e :: es', (k, (sz, et)) :: cs', (idstr, (mk, latest)) :: vs' =>
+      let '(t1, idm) := if show then (let '(t', ok) := bind t (ve_vid e) idstr in (t', expect ok "S:version-id-of-entry"))
+                        else (t, expect (beq idstr (B "null")) "S:never-versioned-id-not-null") in
+      let m := expect (beq (ve_key e) k) "S:version-entry-key" ++
+               expect (Bool.eqb (ve_marker e) mk) "S:version-entry-kind" ++
+               expect (Bool.eqb (ve_latest e) latest) "S:is-latest" ++
+               (if ve_marker e then [] else
+                  expect (sz =? blen (ve_body e)) "S:version-size" ++ expect (beq et (etag_of md5 (ve_body e))) "S:version-etag") ++ idm in
+      let '(t2, ms) := ventries_check md5 show t1 es' cs' vs' in (t2, m ++ ms)
+  | _, _, _ => (t, [B "S:version-entry-count"])
+  end.
+
+Definition versions_step (md5 : list N -> list N) (c : config) (hs : hstate) (o : hop) (ob : obs)
+  : hstate * list (list N) :=
+  match o with
+  | HListVersions b pre d km vm maxkeys =>
+      if negb (cfg_versioned c) then (hs, exp_err ENotImplemented ob false) else
+      match ensure_bucket c (hs_model hs) b with
+      | (s1, Some e) => (with_model hs s1, exp_err e ob false)
+      | (s1, None) =>
+          let vmo := match vm with [] => None | _ => Some (match tbl_id (hs_tbl hs) vm with Some i => i | None => 0%N end) end in
+          match list_versions s1 b pre d km vmo maxkeys with
+          | VLNoBucket => (with_model hs s1, exp_err ENoSuchBucket ob false)
+          | VLInternal => (with_model hs s1, exp_err EInternal ob false)
+          | VLOk r show =>
+              let '(t', ms) := ventries_check md5 show (hs_tbl hs) (vl_entries r) (ob_contents ob) (ob_versions ob) in
+              ({| hs_model := s1; hs_tbl := t'; hs_up := hs_up hs; hs_utbl := hs_utbl hs; hs_fs := hs_fs hs |},
+               exp_ok ob ++ ms ++
+               expect (same_set (vl_prefixes r) (ob_names ob)) "S:version-common-prefixes" ++
+               expect (Bool.eqb (vl_truncated r) (ob_truncated ob)) "M:is-truncated" ++
+               (if vl_truncated r then
+                  expect (beq (ob_next ob) (vl_next_key r)) "M:next-key-marker" ++
+                  (if show then expect (match tbl_str t' (vl_next_vid r) with Some s => beq s (ob_vid ob) | None => false end) "M:next-version-id-marker" else [])
+                else expect (beq (ob_next ob) []) "M:next-key-marker-on-final-page"))
+          end
+      end
+  | _ => (hs, [])
+  end.
+
 Definition hist_step (md5 : list N -> list N) (c : config) (hs : hstate) (o : hop) (ob : obs)
   : hstate * list (list N) :=
   match o with
+  | HListVersions _ _ _ _ _ _ => versions_step md5 c hs o ob
   | HChunkedPut _ _ _ _ _ _ _ => chunked_put_step md5 c hs o ob
   | HInitiate _ _ _ | HUploadPart _ _ _ _ _ | HComplete _ _ _ _ | HAbort _ _ _
   | HListParts _ _ _ _ _ | HListUploads _ _ _ _ _ _ => up_step md5 c hs o ob
